@@ -63,6 +63,18 @@ class Engine:
                     isinstance(f.value, ast.Name) and \
                     f.value.id in (frame.ctx.func.self_name, 'cls'):
                 return True
+            # a private module-level helper of the same package (a helper
+            # extracted into a function instead of a method)
+            tm = target.func.module.name
+            fm = frame.ctx.func.module.name
+            if target.func.cls is None and target.func.parent is None and \
+                    target.func.name.startswith('_') and \
+                    not target.func.name.startswith('__') and (
+                        tm == fm or tm == fm.rpartition('.')[0] or
+                        fm == tm.rpartition('.')[0] or
+                        tm.rpartition('.')[0] == fm.rpartition('.')[0]) and \
+                    not target.func.is_generator:
+                return True
             if extra is not None:
                 return bool(extra(builder, call, target, frame))
             return False
